@@ -337,7 +337,7 @@ public:
     }
 
     base_array<T> operator-() const noexcept {
-        base_array<T> r{_vec};
+        base_array<T> r(*this);
         for (int i = 0; i < r.size(); ++i) {
             r[i] = -r[i];
         }
